@@ -122,7 +122,7 @@ func evalFlatten(c *Case) *Verdict {
 		case "C01":
 			if o.ok() {
 				if cl, d := checkMeaning(c.Disk, c.Root, o.Out, c.Opts); cl != "" {
-					v.fail("C01", cl, "", fmt.Sprintf("schedule %d, options %s: %s", si, c.Opts, d))
+					v.fail("C01", cl, meaningSig, fmt.Sprintf("schedule %d, options %s: %s", si, c.Opts, d))
 				}
 			}
 		case "C02":
@@ -137,7 +137,7 @@ func evalFlatten(c *Case) *Verdict {
 					v.fail("C03", cl, sig, fmt.Sprintf("schedule %d, options %s: %s", si, c.Opts, d))
 				}
 				// existing definitions keep their name and are not overwritten: the definition part of the C01 oracle
-				if cl, d := checkMeaning(c.Disk, c.Root, o.Out, c.Opts); cl == "meaning-definition" || cl == "meaning-definition-lost" {
+				if cl, d := checkMeaningTolerant(c.Disk, c.Root, o.Out, c.Opts); cl == "meaning-definition" || cl == "meaning-definition-lost" {
 					v.fail("C03", "existing-definition-overwritten", "", fmt.Sprintf("schedule %d: %s", si, d))
 				}
 			}
@@ -146,7 +146,7 @@ func evalFlatten(c *Case) *Verdict {
 				if cl, sig, d := checkCanonical(o.Out, true); cl != "" {
 					v.fail("C05", "expand-"+cl, sig, fmt.Sprintf("schedule %d: %s", si, d))
 				}
-				if cl, d := checkMeaning(c.Disk, c.Root, o.Out, c.Opts); cl != "" {
+				if cl, d := checkMeaningTolerant(c.Disk, c.Root, o.Out, c.Opts); cl != "" {
 					v.fail("C05", "expand-"+cl, "", fmt.Sprintf("schedule %d: %s", si, d))
 				}
 				if !cyclic {
@@ -177,7 +177,7 @@ func evalFlatten(c *Case) *Verdict {
 					if cl, sig, d := checkRemoveUnused(o.Out); cl != "" {
 						v.fail("C06", cl, sig, fmt.Sprintf("schedule %d, options %s: %s", si, c.Opts, d))
 					}
-					if cl, d := checkMeaning(c.Disk, c.Root, o.Out, c.Opts); cl == "meaning-operation" || cl == "meaning-paths" {
+					if cl, d := checkMeaningTolerant(c.Disk, c.Root, o.Out, c.Opts); cl == "meaning-operation" || cl == "meaning-paths" {
 						v.fail("C06", "operations-changed", "", fmt.Sprintf("schedule %d: %s", si, d))
 					}
 				}
